@@ -126,7 +126,39 @@ def c02a(prog, R, rid="C02.a"):
     r.ok("census|%d upgrade_version* call sites" % len(ups), ", ".join(sorted({short(c.fn.path) for c in ups})), nontrivial=False)
     if len(ups) < 9:
         r.anchor_missing("upgrade_version* call sites (found %d, 9 confirmed by reading)" % len(ups))
-    r.floor(12)
+    # the counter that is advanced on publication is the *visible* seqno counter, the one that stamps versions the *write*
+    # counter (both are SequenceNumberCounter: a mix-up type-checks, and then no compaction ever makes its version visible to
+    # snapshots taken afterwards)
+    for c in ups + [c for c in prog.all_calls(A.UPGRADE) if c.fn.path == A.UPGRADE]:
+        callee = prog.fn(c.sres)
+        if callee is None:
+            continue
+        names = [callee.local_name(i) for i in range(1, callee.argc + 1)]
+        for pname, want in (("visible_seqno", ("visible_seqno",)), ("global_seqno", ("seqno", "global_seqno"))):
+            if pname not in names:
+                continue
+            flds = set()
+            for (gg, o) in deep_origins(prog, c.fn, c.args[names.index(pname)]):
+                if o.path:
+                    flds.add(o.path[-1])
+                elif o.kind == "param":
+                    flds.add(gg.local_name(o.what))
+            r.check(bool(flds) and flds <= set(want), "%s|%s(%s = the %s counter)" % (prog.fns.get(c.fn.root, c.fn).path, short(c.sres), pname, want[0]),
+                    "the %s argument of a version upgrade is fed from %s" % (pname, sorted(flds)), c.fn.where(c.bb), str(sorted(flds)))
+    of = prog.fn("compaction::worker::Options::from_tree")
+    if of is None:
+        r.anchor_missing("compaction::worker::Options::from_tree")
+    else:
+        for b in of.blocks:
+            for st in b["stmts"]:
+                if st["k"] == "assign" and st["rv"]["k"] == "agg" and st["rv"].get("adt") == "compaction::worker::Options":
+                    for fn_, op in zip(st["rv"]["fields"], st["rv"]["ops"]):
+                        want = {"visible_seqno": "visible_seqno", "global_seqno": "seqno"}.get(fn_)
+                        if want:
+                            flds = {o.path[-1] for o in origins(of, op) if o.path}
+                            r.check(flds == {want}, "compaction::worker::Options::from_tree|%s = tree.config.%s" % (fn_, want),
+                                    "compaction options take %s from %s" % (fn_, sorted(flds)), of.where(), str(sorted(flds)))
+    r.floor(22)
 
 
 CLOSURE_TY = re.compile(r"\{closure@([^:]+):(\d+):(\d+): (\d+):(\d+)\}")
